@@ -70,6 +70,10 @@ XML_DOCS = {
           '<y:a id="b" k="2"/><a xmlns="" id="c" xml:lang="en"><t id="d"/></a></a><Y:Z xmlns:Y="urn:y" id="e"/><a id="f" TYPE="x" type="Ab"/></root>',
     'svghtml': '<?xml version="1.0"?><html xmlns="http://www.w3.org/1999/xhtml" lang="en"><head/><body><p id="p" type="Text">x</p>'
                '<svg xmlns="http://www.w3.org/2000/svg" id="s"><circle id="c"/><t id="t1"/><t xmlns="urn:o" id="t2"/><t id="t3"/></svg><input id="i" type="radio"/></body></html>',
+    'xforms': '<?xml version="1.0"?><html xmlns="http://www.w3.org/1999/xhtml"><body><form id="f"><input type="radio" name="a" Checked="x" id="x1"/>'
+              '<input type="radio" name="a" id="x2"/><input Type="radio" name="b" checked="" id="x3"/><input type="radio" name="b" id="x4"/>'
+              '<input type="radio" Name="c" checked="" id="x5"/><input type="radio" name="c" id="x6"/><input type="radio" name="d" checked="" id="x7"/>'
+              '<input type="radio" name="d" id="x8"/></form><input type="radio" name="d" id="x9"/></body></html>',
     'plain': '<?xml version="1.0"?><doc id="r"><Item id="a" Title="T"><item id="b">x<!--c--><![CDATA[y]]></item></Item><x-y id="c"/><item id="d" lang="en" xml:lang="de"/></doc>',
 }
 
